@@ -9,44 +9,6 @@ From Bnum.Model Require Cast Convert.
 From Bnum.Generated Require Import DigitGen ConvGen.
 From Bnum.Proofs Require Import ImpLemmas ImpLemmas2 ConvGenTieBase.
 
-(* the loop of buint_as_int! from any iteration i on: the model's budget f suffices when i + f reaches N *)
-Lemma buint_as_int_loop dbg w lg pb ps ds : 0 <= lg -> w = 2 ^ lg ->
-  forall f fuel i out, (length ds <= i + f)%nat -> (f <= fuel)%nat ->
-  bind (while_loop (R := Z) fuel
-          (fun '(i, out) => (andb ((ix_shl i (digit_BIT_SHIFT w)) <? pb) (i <? Z.of_nat (length ds))))
-          (fun '(i, out) =>
-             t1' <- arr_get ds i ;;
-             t2' <- pint_shl pb (ud pb t1') (ix_shl i (digit_BIT_SHIFT w)) ;;
-             let out := (u_or out t2') in
-             let i := (i + 1) in
-             Done (Continue (i, out)))
-          (Z.of_nat i, out))
-       (fun t3' => match t3' with Exited (i, out) => Done (Cast.p_of_bits pb ps out) | Returned t4' => Done t4' end)
-  = of_out (omap (Cast.p_of_bits pb ps)
-      (Cast.while_ f (Cast.as_int_cond pb w (length ds))
-         (fun i out =>
-            obind (Cast.rd ds i) (fun d =>
-            obind (Cast.shl_chk dbg pb (ud pb d) (Z.of_nat i * w)) (fun t =>
-            Ret (u_or out t))))
-         i out)).
-Proof.
-  intros Hlg Hw. assert (Hw0 : 0 < w) by (subst w; apply Z.pow_pos_nonneg; lia).
-  induction f as [|f IH]; intros fuel i out Hend Hf.
-  - cbn [Cast.while_ omap of_out]. rewrite while_loop_cond_false; [reflexivity|].
-    rewrite ltb_of_nat. destruct (Nat.ltb_spec i (length ds)); [lia|]. apply andb_false_r.
-  - cbn [Cast.while_]. unfold Cast.as_int_cond at 1.
-    destruct ((Z.of_nat i * w <? pb) && (i <? length ds)%nat) eqn:Hc.
-    + destruct fuel as [|fuel]; [lia|]. rewrite while_loop_S. cbv beta iota.
-      rewrite (ix_shl_BIT_SHIFT w lg) by assumption. rewrite ltb_of_nat, Hc.
-      apply andb_true_iff in Hc. destruct Hc as [Hs Hi]. apply Z.ltb_lt in Hs.
-      rewrite <- rd_as_arr_get. destruct (Cast.rd ds i) as [d|]; [|reflexivity]. cbn [of_out bind obind].
-      rewrite pint_shl_ok by nia. rewrite shl_chk_in_range by exact Hs. cbn [bind obind]. cbv zeta.
-      replace (Z.of_nat i + 1) with (Z.of_nat (S i)) by lia.
-      apply IH; lia.
-    + cbn [omap of_out]. rewrite while_loop_cond_false; [reflexivity|].
-      rewrite (ix_shl_BIT_SHIFT w lg) by assumption. rewrite ltb_of_nat. exact Hc.
-Qed.
-
 Lemma conv_buint_as_int dbg w lg n pb ps ds : 0 <= lg -> w = 2 ^ lg -> length ds = n ->
   forall fuel, (n <= fuel)%nat ->
   ConvGen.buint_as_int w (Z.of_nat n) fuel pb ps ds =
@@ -54,5 +16,34 @@ Lemma conv_buint_as_int dbg w lg n pb ps ds : 0 <= lg -> w = 2 ^ lg -> length ds
 Proof.
   intros Hlg Hw Hn fuel Hf. subst n. unfold ConvGen.buint_as_int, Cast.U_as_int, Cast.U_as_int_bits.
   rewrite p_lit_0. cbv zeta.
-  exact (buint_as_int_loop dbg w lg pb ps ds Hlg Hw (length ds) fuel 0%nat 0 ltac:(lia) Hf).
+  exact (as_int_loop_tie dbg w lg pb ps (fun d => d) u_or ds Hlg Hw (length ds) fuel 0%nat 0 ltac:(lia) Hf).
+Qed.
+
+(* bint_as!: `impl CastFrom<$BInt<N>> for $int`: a negative source is accumulated with `&` / `!` from all-ones, a non-negative
+   one goes through buint_as_int! *)
+Lemma conv_bint_as_int dbg w lg n pb ps ds : 0 <= lg -> w = 2 ^ lg -> length ds = n ->
+  forall fuel, (n <= fuel)%nat ->
+  ConvGen.bint_as_int w (Z.of_nat n) fuel pb ps ds =
+  match Cast.I_as_int dbg pb ps w ds with Ret r => Done r | Panic => Panicked end.
+Proof.
+  intros Hlg Hw Hn fuel Hf. unfold ConvGen.bint_as_int, Cast.I_as_int, Cast.I_as_int_bits.
+  destruct (is_negative w ds).
+  - subst n. rewrite p_lit_0. cbv zeta.
+    exact (as_int_loop_tie dbg w lg pb ps (u_not w) (fun out t => u_and out (u_not pb t)) ds Hlg Hw
+             (length ds) fuel 0%nat (u_not pb 0) ltac:(lia) Hf).
+  - rewrite (conv_buint_as_int dbg w lg n pb ps ds Hlg Hw Hn fuel Hf). unfold Cast.U_as_int, Cast.to_bits.
+    destruct (omap _ _); reflexivity.
+Qed.
+
+(* ---- all obligations of the group in one statement ---- *)
+Theorem conv_C09_match_model dbg w lg : 0 <= lg -> w = 2 ^ lg ->
+  forall n pb ps ds fuel, length ds = n -> (n <= fuel)%nat ->
+  ConvGen.buint_as_int w (Z.of_nat n) fuel pb ps ds =
+    match Cast.U_as_int dbg pb ps w ds with Ret r => Done r | Panic => Panicked end /\
+  ConvGen.bint_as_int w (Z.of_nat n) fuel pb ps ds =
+    match Cast.I_as_int dbg pb ps w ds with Ret r => Done r | Panic => Panicked end.
+Proof.
+  intros Hlg Hw n pb ps ds fuel Hn Hf. split.
+  - apply (conv_buint_as_int dbg w lg); assumption.
+  - apply (conv_bint_as_int dbg w lg); assumption.
 Qed.
